@@ -61,8 +61,7 @@ def base_setup(cls, any_ops=False):
         state = setup_cur_state(ex, below_limit=not any_ops)
         self_ = setup_self(ex, cls)
         env = Env()
-        env.vars['self'] = self_
-        env.vars['state'] = state
+        bind_positional(env, ex.task.finfo, [self_, state]) if ex.task.finfo is not None else env.vars.update({'self': self_, 'state': state})
         ctx = {'env': env, 'self': self_, 'state': state, 'cls': cls, 'entry': ex.heap.copy()}
         ex.ctx = ctx
         return ctx
